@@ -2202,7 +2202,8 @@ class Interp:
                 self.inline_calls.append((self.frame['callee'], p, e['line']))
                 return self.call_fn(p, args, line=e['line'])
             last = segs[-1]
-            if args and '::' in p and p.rsplit('::', 1)[0] in self.c.enums and p not in self.c.fns:
+            if args and '::' in p and p.rsplit('::', 1)[0] in self.c.enums and p not in self.c.fns and \
+                    any(v_['name'] == last for v_ in self.c.enums[p.rsplit('::', 1)[0]].get('variants', [])):
                 # a tuple variant of a crate enum: a constructed value with positional fields
                 return ('struct', p, {str(i_): a_ for i_, a_ in enumerate(args)})
             if len(args) == 1 and p in self.c.structs and self.c.is_newtype(p):
